@@ -100,7 +100,7 @@ impl Prop for GlobalVariance {
         "gv-variance".into()
     }
     fn rule(&self) -> String {
-        "bundled voice or one of its PDF-perturbed copies - in 30 % of the cases combined with a copy whose GV means are scaled by 0.5..3, using different parameter and GV interpolation weights -; 10..60 corpus labels (consecutive window or shuffled lines); three sorted GV weights in [0.25,2] applied to both GV streams (spectrum, log-F0); variance of every coefficient over the eligible frames vs weight x GV mean, monotone in the weight; the low-pass stream (no GV) bitwise unaffected by its GV weight. Non-trivial: >= 100 eligible frames in both streams".into()
+        "bundled voice or one of its PDF-perturbed copies - in 30 % of the cases combined with a copy whose GV means are scaled by 0.5..3, using different parameter and GV interpolation weights -; 10..60 corpus labels (consecutive window or shuffled lines); three sorted GV weights in [0.25,2], the spectrum taking them in ascending and log-F0 in descending order (each stream its own weight); variance of every coefficient over the eligible frames vs weight x GV mean, monotone in the weight; the low-pass stream (no GV) bitwise unaffected by its GV weight. Non-trivial: >= 100 eligible frames in both streams".into()
     }
     fn tape_len(&self, _: Tier) -> usize {
         80
@@ -170,14 +170,19 @@ impl Prop for GlobalVariance {
             })
             .collect();
         ensure!(!gv_means[0].is_empty() && !gv_means[1].is_empty(), "gv-missing", "bundled voice must have GV for streams 0 and 1");
-        let mut prev: Option<(f64, Vec<Vec<f64>>)> = None;
+        let mut prev: Option<([f64; 2], Vec<Vec<f64>>)> = None;
         let mut rep = Report::new();
         let mut base_lpf: Option<Vec<Vec<f64>>> = None;
         let mut eligible_counts = (0usize, 0usize);
-        for &w in &c.weights {
+        // each GV stream gets its OWN weight: the spectrum walks the sorted weights upwards, log-F0
+        // downwards (the law is per stream; equal weights everywhere would hide a mixed-up index)
+        let nw = c.weights.len();
+        for k in 0..nw {
+            let w = c.weights[k];
+            let per_stream = [c.weights[k], c.weights[nw - 1 - k]];
             let mut e = engine.clone();
-            e.condition.set_gv_weight(0, w);
-            e.condition.set_gv_weight(1, w);
+            e.condition.set_gv_weight(0, per_stream[0]);
+            e.condition.set_gv_weight(1, per_stream[1]);
             e.condition.set_gv_weight(2, w);
             let tr = gen_traj(&e, lines)?;
             ensure!(tr.lf0.len() == frame_label_ok.len(), "frames", "{} frames, expected {}", tr.lf0.len(), frame_label_ok.len());
@@ -202,6 +207,7 @@ impl Prop for GlobalVariance {
                     let vals: Vec<f64> = elig.iter().map(|t| traj[*t][k]).collect();
                     if vals.len() >= 100 {
                         let var = variance(&vals);
+                        let w = per_stream[si];
                         let ratio = var / (w * gv_means[si][k]);
                         rep.metric("max_abs_log_ratio", ratio.ln().abs());
                         ensure!(
@@ -217,17 +223,18 @@ impl Prop for GlobalVariance {
                 }
                 vars.push(v);
             }
-            if let Some((pw, pv)) = &prev {
+            if let Some((pws, pv)) = &prev {
                 for si in 0..2 {
                     for k in 0..vars[si].len() {
-                        let (a, b) = (pv[si][k], vars[si][k]);
-                        if a.is_finite() && b.is_finite() && w > *pw {
-                            ensure!(b >= a * (1.0 - 1e-9), "gv-monotone", "stream {} coefficient {}: variance {:e} at weight {} but {:e} at the smaller weight {}", si, k, b, w, a, pw);
+                        // (a, wa) = the observation at the smaller weight of this stream
+                        let ((a, wa), (b, wb)) = if per_stream[si] > pws[si] { ((pv[si][k], pws[si]), (vars[si][k], per_stream[si])) } else { ((vars[si][k], per_stream[si]), (pv[si][k], pws[si])) };
+                        if a.is_finite() && b.is_finite() && wb > wa {
+                            ensure!(b >= a * (1.0 - 1e-9), "gv-monotone", "stream {} coefficient {}: variance {:e} at weight {} but {:e} at the smaller weight {}", si, k, b, wb, a, wa);
                         }
                     }
                 }
             }
-            prev = Some((w, vars));
+            prev = Some((per_stream, vars));
         }
         rep.nontrivial = eligible_counts.0 >= 100 && eligible_counts.1 >= 100;
         rep.class(c.voice.class());
